@@ -177,6 +177,7 @@ def main(pid):
             continue
         used.update(ts)
         new.append({"id": gid, "property": pid, "target": TARGET[pid], "status": "known", "family": fam, "tags": ts,
+                    "max_per_chunk": dict((t, c["max"][t]) for t in ts) if "max" in c else {},
                     "witness": "key[2] == %r" % gid, "what": what})
     left = [t for t in tags if t not in used]
     if left:
